@@ -95,12 +95,20 @@ class StepRig:
         self._pipe: Optional[Tuple[Any, Any]] = None
         shim.install()
         self.sel = PollSelector()
+        evq = None
+        if getattr(flags, 'enable_events', False):
+            # deployments with the event bus on (--enable-events, --enable-dashboard): works publish into a queue nobody
+            # drains here (an in-process queue.Queue; the bus itself is C18's subject)
+            import queue as _queue
+            from proxy.core.event import EventQueue
+            evq = EventQueue(_queue.Queue())        # type: ignore[arg-type]
+        self.event_queue = evq
         if mode == 'local':
-            self.ex: Any = LocalFdExecutor(iid='1', work_queue=NonBlockingQueue(), flags=flags)
+            self.ex: Any = LocalFdExecutor(iid='1', work_queue=NonBlockingQueue(), flags=flags, event_queue=evq)
         elif mode == 'remote':
             a, b = multiprocessing.Pipe()
             self._pipe = (a, b)
-            self.ex = RemoteFdExecutor(iid='1', work_queue=b, flags=flags)
+            self.ex = RemoteFdExecutor(iid='1', work_queue=b, flags=flags, event_queue=evq)
         else:
             raise ValueError(mode)
         shim.S.counts = {}
